@@ -42,3 +42,21 @@ Example C17_nonvacuous :
   let ev := enc_event {| h_ts := 7; h_type := 16; h_sid := 1; h_next := 120; h_flags := 0 |} [1;2;3;4;5;6;7;8] in
   wf_bytesb ev = true /\ (len ev <? 2 ^ 32) = true /\ is_valid ev = Ok true /\ is_valid (firstn 20 ev) = Ok false.
 Proof. repeat split; vm_compute; reflexivity. Qed.
+
+(* ---------------------------------------------------------------------------------------------------------------
+   Tie to the source.  The functions *_g below are generated from /repo on every run by harness/cmd/gotrans
+   (gen/Trans*.v); the theorems say that, for ALL inputs, they compute what the hand-written model functions used in
+   the statements above compute (res_sim: the same value, or both an error, or both a panic), under the premises Go's
+   types provide.  A change to one of these Go functions that alters its behaviour makes the proof below fail. *)
+From GB Require Import Model.Header Model.Events Model.Rbr Model.Cell Base.GoSem Proofs.TransTactics Proofs.TransEquivCell Proofs.TransEquivMeta Proofs.TransEquivBitmap Proofs.TransEquivHeader Proofs.TransEquivEvents Proofs.TransEquivRbr.
+From GBGen Require Import TransCell TransMeta TransBitmap TransHeader TransEvents TransRbr.
+Open Scope Z_scope.
+
+Theorem C17_tie_IsValid : forall ev, res_sim (binlogEvent_IsValid_g ev) (is_valid ev).
+Proof. exact binlogEvent_IsValid_equiv. Qed.
+Print Assumptions C17_tie_IsValid.
+
+Theorem C17_tie_Length : forall ev, res_sim (binlogEvent_Length_g ev) (ev_length ev).
+Proof. exact binlogEvent_Length_equiv. Qed.
+Print Assumptions C17_tie_Length.
+
